@@ -433,8 +433,17 @@ def rule_scan(c: Ctx) -> RuleResult:
         if not stores and nested:
             r.add(f"{f.short}|nested", c.where(f, f.node), f.short, "nested tokenize(state, start, cursor)", "discharged",
                   f"the lookahead cursor {sorted(cursors)} is handed to the nested tokenize as its end line")
+        def skey(a_: ast.AST) -> str:
+            """The store with every local that is neither a parameter nor a scan cursor blanked: the identity of a finding does not
+            depend on how the count added to the start line is computed (inline, in a helper, through a tuple)."""
+            import copy as _copy
+
+            class B(ast.NodeTransformer):
+                def visit_Name(self, node: ast.Name) -> ast.AST:
+                    return node if (node.id in params or node.id in origin or node.id == st) else ast.Name(id="_", ctx=node.ctx)
+            return f"{f.short}|{alpha(f, B().visit(_copy.deepcopy(a_)))[:60]}"
         for a in stores:
-            key = f"{f.short}|{alpha(f, a)[:60]}"
+            key = skey(a)
             if isinstance(a, ast.Assign) and isinstance(a.value, ast.Name):
                 # `end = start + n + 1; state.line = end`: keyed (and judged) by the definition of the local, so that a finding
                 # keeps its identity when a temporary is introduced
@@ -443,7 +452,7 @@ def rule_scan(c: Ctx) -> RuleResult:
                     import copy as _copy
                     a2 = _copy.copy(a)
                     a2.value = ds_[0].value
-                    key = f"{f.short}|{alpha(f, a2)[:60]}"
+                    key = skey(a2)
             if isinstance(a, ast.AugAssign):
                 okc = isinstance(a.value, ast.Constant)
                 r.add(key, c.where(f, a), f.short, U(a), "discharged" if okc else "violation",
